@@ -164,6 +164,81 @@ fn case(ctx: &Ctx, tape: &[u8], rec: &Rec) -> Verdict {
     r
 }
 
+/// Projects in which two named files define the same name (an error the tool reports): repeated
+/// runs and both orders of the file arguments must still display the same findings.
+fn duplicate_case(ctx: &Ctx, tape: &[u8], rec: &Rec) -> Verdict {
+    let mut t = Tape::new(tape);
+    let with_main = t.chance(100);
+    let mut p = gen_project(&mut t, ProjOpts { max_files: 3, max_defs: 3, main_component: with_main, clean: true, ..ProjOpts::default() });
+    if p.files.len() < 2 {
+        rec.class("duplicate_projects_single_file_skipped");
+        return Ok(());
+    }
+    // a second, different definition of a name of file i is added to file j (before its main component, if any)
+    let i = t.below(p.files.len());
+    let j = (i + 1 + t.below(p.files.len() - 1)) % p.files.len();
+    let k = t.below(p.files[i].ast.defs.len());
+    let d = &p.files[i].ast.defs[k];
+    let is_template = matches!(d.kind, crate::gen::ast::DefKind::Template { .. });
+    let params = d.params.join(", ");
+    let text = if is_template {
+        format!("\ntemplate {}({params}) {{\n    signal input zdi;\n    signal output zdo;\n    var zdv = 3;\n    zdo <-- zdi * zdi;\n}}\n", d.name)
+    } else {
+        format!("\nfunction {}({params}) {{\n    var zdv = 3;\n    return 1;\n}}\n", d.name)
+    };
+    let src = &p.files[j].r.src;
+    let at = p.files[j].ast.main.as_ref().and_then(|m| p.files[j].r.span(m.id)).map(|s| s.0).unwrap_or(src.len());
+    p.files[j].r.src = format!("{}{text}{}", &src[..at], &src[at..]);
+    p.named = (0..p.files.len()).collect();
+    let dir = scratch(ctx, "c17d");
+    let res = (|| -> Verdict {
+        let named = p.write(&dir).map_err(|e| Bad::new(format!("INFRA write: {e}")))?;
+        let Some(first) = observe(ctx, &named, &dir)? else {
+            rec.class("crashed_skipped");
+            return Ok(());
+        };
+        rec.class("duplicate_projects");
+        rec.nontrivial(p.hash());
+        for k in 0..ctx.tier.pick(7, 19) {
+            let Some(again) = observe(ctx, &named, &dir)? else { continue };
+            rec.class("repeat_runs");
+            if again.exact != first.exact || again.shown != first.shown || again.status != first.status {
+                let (a, b) = diff(&first.exact, &again.exact);
+                return Err(Bad::new(format!(
+                    "project with a duplicated definition name: run {} of the same command displays different findings: only in the first run {a:?}; only in the later run {b:?}",
+                    k + 2
+                ))
+                .sig("C17:nondeterministic-duplicate-definition"));
+            }
+        }
+        Ok(())
+    })()
+    .map_err(|b| if b.rendered.is_empty() { b.rendered(p.describe()) } else { b });
+    let _ = std::fs::remove_dir_all(&dir);
+    res
+}
+
+/// Committed reproducer directory: `d1.circom d2.circom` (library) and `d3.circom d2.circom`
+/// (program) are each run 16 times; all runs must display the same findings.
+fn replay_known(ctx: &Ctx, k: &Known) -> Verdict {
+    let dir = Path::new(&k.repro);
+    for files in [["d1.circom", "d2.circom"], ["d3.circom", "d2.circom"]] {
+        let named: Vec<PathBuf> = files.iter().map(|f| dir.join(f)).collect();
+        let out = scratch(ctx, "c17k");
+        let Some(first) = observe(ctx, &named, &out)? else { continue };
+        for n in 0..15 {
+            let Some(again) = observe(ctx, &named, &out)? else { continue };
+            if again.exact != first.exact || again.shown != first.shown || again.status != first.status {
+                let (a, b) = diff(&first.exact, &again.exact);
+                return Err(Bad::new(format!("{files:?}: run {} displays different findings: only in the first run {a:?}; only in the later run {b:?}", n + 2))
+                    .sig("C17:nondeterministic-duplicate-definition"));
+            }
+        }
+        let _ = std::fs::remove_dir_all(&out);
+    }
+    Ok(())
+}
+
 const EXTRA_DEFS: &str = "\ntemplate ZzExtra(k) {\n    signal input zin;\n    signal output zout;\n    var zv = k * 2;\n    zout <-- zin * zv;\n}\nfunction zzextra(x) {\n    var y = x + 1;\n    return x;\n}\n";
 
 fn case_in(ctx: &Ctx, p: &GenProject, t: &mut Tape, rec: &Rec, dir: &Path) -> Verdict {
@@ -297,6 +372,7 @@ pub fn replay(ctx: &Ctx, check: &str, tape: &[u8]) -> Verdict {
     let rec = Rec::new(&stats, false);
     match check {
         "projects" => case(ctx, tape, &rec),
+        "duplicate_names" => duplicate_case(ctx, tape, &rec),
         _ => Err(Bad::new(format!("unknown check {check}"))),
     }
 }
@@ -306,7 +382,13 @@ pub fn run(ctx: &Ctx) -> i32 {
     let stats = Stats::new();
     let mut outcome = Outcome::new();
     let known = load_known("C17");
+    for k in &known {
+        let r = replay_known(ctx, k);
+        outcome.known_replay(k, r);
+    }
     let fails = run_tapes_opts(ctx, "projects", ctx.tier.pick(1_500, 15_000), 3000, 60, &stats, |tape, rec| case(ctx, tape, rec));
+    outcome.absorb(&known, fails);
+    let fails = run_tapes_opts(ctx, "duplicate_names", ctx.tier.pick(160, 3_000), 3000, 40, &stats, |tape, rec| duplicate_case(ctx, tape, rec));
     outcome.absorb(&known, fails);
     finish(
         ctx,
